@@ -668,7 +668,7 @@ struct Fixture {
         m.reset();
         if ( after ) after();
     }
-    std::string spec() const { return "maprelaxed"; }     // extract_min/max: C15 only requires a present key; the real-time clause is judged by the oracle in tools/steps.py
+    std::string spec() const { return "map"; }
     std::vector<std::vector<Op>> program( Rng& r, int nthreads, int nops ) { return map_program( r, nthreads, nops, *m, gen ); }
     void thread_begin( int ) { set_quiet( true ); cds::threading::Manager::attachThread(); set_quiet( false ); }
     void thread_end( int ) { set_quiet( true ); cds::threading::Manager::detachThread(); set_quiet( false ); }
